@@ -585,7 +585,58 @@ def _gh(twin):
     return lambda tier: gen_history(tier, twin=twin)
 
 
+# ---------------------------------------------------------------------------
+# dimensions above 3 (plain 4-D / 5-D models, space + time): the seed alone determines the field
+
+
+@st.composite
+def gen_highdim(draw, tier="quick"):
+    how = draw(st.sampled_from(["plain4", "plain5", "temporal", "latlon_temporal"]))
+    return {
+        "how": how,
+        "cls": draw(st.sampled_from(["Gaussian", "Exponential", "Matern"])),
+        "seed": draw(st.one_of(st.integers(0, 300), st.integers(0, 2**32 - 1))),
+        "mode_no": draw(st.sampled_from([8, 32])),
+        "n": draw(st.integers(2, 6)),
+        "pseed": draw(st.integers(0, 10**6)),
+        "noise": [draw(st.integers(0, 2**31 - 1)), draw(st.integers(0, 2**31 - 1))],
+    }
+
+
+def check_highdim(case, rec):
+    how = case["how"]
+    tags = {"model": case["cls"], "kind": "high_dim", "how": how}
+    rec.label("highdim_" + how)
+    kw = {"plain4": dict(dim=4), "plain5": dict(dim=5), "temporal": dict(spatial_dim=3, temporal=True), "latlon_temporal": dict(latlon=True, temporal=True)}[how]
+    prs = np.random.RandomState(case["pseed"])
+    state0 = np.random.get_state()
+    try:
+        fields = []
+        with quiet():
+            for rep in range(2):
+                # whatever the process-wide numpy generator was used for in between must not matter
+                np.random.seed(case["noise"][rep])
+                model = getattr(gs, case["cls"])(len_scale=1.5, **kw)
+                fd = model.field_dim
+                if rep == 0:
+                    pos = prs.uniform(-3, 3, (fd, case["n"]))
+                    if how == "latlon_temporal":
+                        pos[0] = prs.uniform(-80, 80, case["n"])
+                        pos[1] = prs.uniform(-170, 170, case["n"])
+                srf = lib(gs.SRF, model, seed=case["seed"], mode_no=case["mode_no"], _tags=tags)
+                fields.append(np.array(lib(srf, pos.copy(), _tags=tags)))
+                # same object, same seed passed again
+                fields.append(np.array(lib(srf, pos.copy(), seed=int(str(case["seed"])), _tags=tags)))
+    finally:
+        np.random.set_state(state0)
+    for j in range(1, len(fields)):
+        err = float(np.max(np.abs(fields[j] - fields[0])))
+        require(err == 0.0, f"{case['cls']} ({how}, model dim {model.dim}): equal seeds give fields that differ by {err:.3g} (evaluation {j} vs 0)", tags)
+    rec.nontrivial(True)
+
+
 SUBS = [
+    Sub("high_dim", gen_highdim, check_highdim, quick=200, thorough=4000, shards_quick=2, shards_thorough=4),
     Sub("locality", gen_locality, check_locality, quick=500, thorough=12000, shards_quick=5, shards_thorough=8),
     Sub("history", _gh(False), check_history, quick=500, thorough=12000, shards_quick=6, shards_thorough=8, nontrivial=_nontrivial_history),
     Sub("seed_identity", _gh(True), check_twin, quick=300, thorough=6000, shards_quick=4, shards_thorough=6),
